@@ -90,7 +90,13 @@ impl<'tcx> Cx<'tcx> {
                         }
                         _ => format!("{}", idx.as_usize()),
                     };
-                    let _ = write!(s, "[\"f\",{},{}]", esc(&name), idx.as_usize());
+                    let adt = match pty.ty.kind() {
+                        ty::Adt(def, _) => self.tcx.def_path_str(def.did()),
+                        ty::Tuple(_) => "(tuple)".to_string(),
+                        ty::Closure(..) => "(closure)".to_string(),
+                        _ => "".to_string(),
+                    };
+                    let _ = write!(s, "[\"f\",{},{},{}]", esc(&name), idx.as_usize(), esc(&adt));
                 }
                 PlaceElem::Index(l) => {
                     let _ = write!(s, "[\"i\",{}]", l.as_usize());
@@ -104,7 +110,11 @@ impl<'tcx> Cx<'tcx> {
                         Some(n) => n.to_string(),
                         None => format!("{}", vi.as_usize()),
                     };
-                    let _ = write!(s, "[\"dc\",{},{}]", esc(&n), vi.as_usize());
+                    let adt = match pty.ty.kind() {
+                        ty::Adt(def, _) => self.tcx.def_path_str(def.did()),
+                        _ => "".to_string(),
+                    };
+                    let _ = write!(s, "[\"dc\",{},{},{}]", esc(&n), vi.as_usize(), esc(&adt));
                 }
                 PlaceElem::OpaqueCast(_) => s.push_str("[\"oc\"]"),
                 PlaceElem::UnwrapUnsafeBinder(_) => s.push_str("[\"ub\"]"),
